@@ -10,6 +10,7 @@ CONSTANTS
   MaxTop = 1000
   MinKids = 0
   Once = {}
+  SpineDeep = FALSE
 CONSTRAINT HWM
 POSTCONDITION TraceAccepted
 CHECK_DEADLOCK FALSE
